@@ -124,9 +124,20 @@ def run(prop_filter=None, runs=None, tier="quick") -> int:
                 shutil.rmtree(d, ignore_errors=True)
     killed = sum(1 for r in results if r["status"] in ("killed", "silent"))
     print(f"selftest: {killed}/{len(results)} mutants killed")
-    with open(os.path.join(VERIF_DIR, "mutants", "last_selftest.json"), "w") as f:
+    out = os.path.join(VERIF_DIR, "mutants", "last_selftest.json")
+    rc = 0 if killed == len(results) else 1
+    if prop_filter:
+        # a run restricted to one property refreshes that property's entries and keeps the others
+        try:
+            with open(out) as f:
+                old = json.load(f).get("results", [])
+        except (OSError, ValueError):
+            old = []
+        results = [r for r in old if r.get("property") != prop_filter] + results
+        killed = sum(1 for r in results if r["status"] in ("killed", "silent"))
+    with open(out, "w") as f:
         json.dump(dict(killed=killed, tried=len(results), results=results), f, indent=1)
-    return 0 if killed == len(results) else 1
+    return rc
 
 
 if __name__ == "__main__":
